@@ -12,28 +12,42 @@ static inline const char *sv_at_checked(const sv *s, unsigned long i) { if (!(i 
 static inline char *str_at(str *s, unsigned long i) { SHIM_ASSERT(i <= s->len, "shim.string.index.in_range"); return &s->data[i]; }
 static inline char *str_back(str *s) { SHIM_ASSERT(s->len > 0, "shim.string.back.nonempty"); return &s->data[s->len - 1]; }
 static inline char *str_at_checked(str *s, unsigned long i) { if (!(i < s->len)) { __exc = EXC_out_of_range; return s->data; } return &s->data[i]; }
-static inline sv str_view(const str *s) { sv r; r.data = s->data; r.len = s->len; return r; }
-static inline sv str_view_v(str s) { sv r; r.data = s.data; r.len = s.len; return r; }
+static inline sv str_view(const str *s) { sv r; r.data = s->data; r.len = s->len; r.id = s->id; return r; }
+static inline sv str_view_v(str s) { sv r; r.data = s.data; r.len = s.len; r.id = s.id; return r; }
 static inline sv sv_substr(sv s, unsigned long pos, unsigned long n) {
-  sv r; if (pos > s.len) { __exc = EXC_out_of_range; r.data = s.data; r.len = 0; return r; }
-  unsigned long rem = s.len - pos; r.data = s.data + pos; r.len = n < rem ? n : rem; return r; }
+  sv r; r.id = 0; if (pos > s.len) { __exc = EXC_out_of_range; r.data = s.data; r.len = 0; return r; }
+  unsigned long rem = s.len - pos; r.data = s.data + pos; r.len = n < rem ? n : rem; if (pos == 0 && r.len == s.len) r.id = s.id; return r; }
+/* string equality: exact on length and on identical storage; otherwise the byte comparison is abstract
+   (nondeterministic), because cbmc's memcmp model is a loop over a symbolic length.  Sound over-approximation: both
+   outcomes are explored wherever the bytes could differ. */
 static inline _Bool sv_eq(sv a, sv b) {
+  if (a.id != 0 && b.id != 0) return a.id == b.id;
   if (a.len != b.len) return 0;
-  /* byte-wise comparison through CBMC's memcmp model */
-  return a.len == 0 || memcmp(a.data, b.data, a.len) == 0; }
-static inline str str_empty(void) { str r; r.data = (char *)malloc(1); __CPROVER_assume(r.data != 0); r.data[0] = 0; r.len = 0; return r; }
+  if (a.len == 0 || a.data == b.data) return 1;
+  return nondet_bool(); }
+#ifdef SHIM_STR_PRECISE
+static inline str str_empty(void) { str r; r.data = (char *)malloc(1); __CPROVER_assume(r.data != 0); r.data[0] = 0; r.len = 0; r.id = 0; return r; }
+#else
+/* content-abstract mode: copies of strings do not allocate (cbmc 6.11 dfcc forbids malloc inside loops that have a
+   contract, and std::string parameters are copied everywhere).  A copy aliases the bytes of its source; since the bytes
+   are never constrained in this mode (only length, first byte where stated, and the content class id), aliasing has no
+   effect on what is proved.  Operations that change bytes clear the id of the changed object only. */
+static char g_empty_str_storage[1];
+static inline str str_empty(void) { str r; r.data = g_empty_str_storage; r.len = 0; r.id = 0; return r; }
+#endif
 static inline str str_from_range(const char *a, const char *b) {
   SHIM_ASSERT(__CPROVER_same_object(a, b) && a <= b, "shim.string.range_valid");
   unsigned long n = (unsigned long)(b - a);
-  str r; r.data = (char *)malloc(n + 1); __CPROVER_assume(r.data != 0);
+  str r;
 #ifdef SHIM_STR_PRECISE
+  r.data = (char *)malloc(n + 1); __CPROVER_assume(r.data != 0);
   if (n > 0) memcpy(r.data, a, n);
+  r.data[n] = 0;
 #else
-  /* bytes of the copy are left unconstrained (fresh malloc'd memory is nondeterministic in CBMC): an
-     over-approximation that is sound for safety obligations; units that need the bytes define SHIM_STR_PRECISE */
+  r.data = (char *)a;     /* aliases the source bytes, see above */
 #endif
-  r.data[n] = 0; r.len = n; return r; }
-static inline str str_from_sv(sv s) { return str_from_range(s.data, s.data + s.len); }
+  r.len = n; r.id = 0; return r; }
+static inline str str_from_sv(sv s) { str r = str_from_range(s.data, s.data + s.len); r.id = s.id; return r; }
 /* std::count over characters: a loop; callers that need it unbounded must give it a contract */
 static inline long shim_count_char(const char *a, const char *b, char c) {
   long n = 0;
@@ -65,7 +79,7 @@ static inline char *shim_transform_char(char *b, char *e, char *o, char (*f)(cha
 /* std::to_string / number formatting: the digits are opaque (libc), the length is between 1 and 330 bytes */
 static inline str str_from_num(double v) {
   unsigned long n = nondet_ulong(); __CPROVER_assume(n >= 1 && n <= 330);
-  str r; r.data = (char *)malloc(n + 1); __CPROVER_assume(r.data != 0); r.data[n] = 0; r.len = n; return r; }
+  str r; r.data = (char *)malloc(n + 1); __CPROVER_assume(r.data != 0); r.data[n] = 0; r.len = n; r.id = 0; return r; }
 static inline str *str_assign(str *d, sv s) { *d = str_from_sv(s); return d; }
 static inline str str_substr(const str *s, unsigned long pos, unsigned long n) {
   if (pos > s->len) { __exc = EXC_out_of_range; return str_empty(); }
@@ -88,4 +102,7 @@ static inline long shim_stol(sv s) { if (!shim_sto_class(s, 19)) return 0; retur
 static inline int shim_stoi(sv s) { if (!shim_sto_class(s, 10)) return 0; return nondet_int(); }
 static inline double shim_stod(sv s) { if (!shim_sto_class(s, 300)) return 0; return nondet_double(); }
 static inline float shim_stof(sv s) { if (!shim_sto_class(s, 38)) return 0; return nondet_float(); }
+/* a C string of unknown (but finite) length: the length is opaque */
+static inline sv sv_from_cstr(const char *p) { sv r; r.data = p; r.len = nondet_ulong(); __CPROVER_assume(r.len < 4096); r.id = 0; return r; }
+static inline void str_clear(str *s) { s->len = 0; s->id = 0; if (s->data) s->data[0] = 0; }
 #endif
